@@ -2,6 +2,7 @@ import Cirbo.Proofs.GenMul
 import Cirbo.Proofs.GenLevels
 import Cirbo.Proofs.GenDadda
 import Cirbo.Proofs.GenKara
+import Cirbo.Proofs.GenSquare
 /-!
 # C08 — Multiplier and squarer generators compute exact products
 
@@ -15,7 +16,9 @@ import Cirbo.Proofs.GenKara
 -- OBLIGATION: c08_mul_karatsuba
 -- OBLIGATION: c08_mul_karatsuba_pow2
 -- OBLIGATION: c08_mul_pow2_m1
--- PARTIAL: proved: the frame theorem for every mode (all are Prog programs), the partial-product matrix (sum_i 2^i*row_i = a*b), add_mul_alter = a*b exactly (positional), add_mul (DEFAULT) = a*b exactly (positional: on gapless weights the weighted sum returns the levels 0,1,2,... in order); only its result width n+m is not proved; add_mul_dadda = a*b exactly with its result width (all reduction stages, any operand widths, both endiannesses). both Karatsuba variants (add_mul_karatsuba_with_efficient_sum = MulMode.KARATSUBA, and add_mul_karatsuba over add_mul_pow2_m1) = a*b exactly with their result width, by induction over the recursion (every threshold, operands of different widths, zero padding, the subtraction never borrows); add_mul_pow2_m1 = a*b exactly with its width (column-loop invariant over add_sum_pow2_m1, anti-diagonal re-summation of the partial-product matrix). Wallace and both squarers: are modelled one-to-one (Model/Gen3.lean) and compared gate for gate with the code on every run (widths up to 40x40, 48..56 for the squarer split), and the search checks values exhaustively/densely and the result widths on the real generators; their value theorems are not proved yet.
+-- OBLIGATION: c08_square
+-- OBLIGATION: c08_square_pow2_m1
+-- PARTIAL: proved: the frame theorem for every mode (all are Prog programs), the partial-product matrix (sum_i 2^i*row_i = a*b), add_mul_alter = a*b exactly (positional), add_mul (DEFAULT) = a*b exactly (positional: on gapless weights the weighted sum returns the levels 0,1,2,... in order); only its result width n+m is not proved; add_mul_dadda = a*b exactly with its result width (all reduction stages, any operand widths, both endiannesses). both Karatsuba variants (add_mul_karatsuba_with_efficient_sum = MulMode.KARATSUBA, and add_mul_karatsuba over add_mul_pow2_m1) = a*b exactly with their result width, by induction over the recursion (every threshold, operands of different widths, zero padding, the subtraction never borrows); add_mul_pow2_m1 = a*b exactly with its width (column-loop invariant over add_sum_pow2_m1, anti-diagonal re-summation of the partial-product matrix). both squarers (add_square_pow2_m1: the AND triangle built by the nested loops, the square as a sum over anti-diagonals; add_square: induction over the recursive split x = a + 2^mid*b) = x^2 exactly on 2n bits. Wallace is modelled one-to-one (Model/Gen3.lean) and compared gate for gate with the code on every run (widths up to 40x40), and the search checks its values exhaustively/densely and the result widths on the real generator; its value theorem is not proved.
 -/
 namespace Cirbo
 
@@ -130,6 +133,31 @@ theorem c08_mul_pow2_m1 {st st' : GSt} {x y out : List Label} {be : Bool}
   rw [e1, valLE_congr (fun l hl => h2 l (hx l (mem_revIf.mp hl))),
     valLE_congr (fun l hl => h2 l (hy l (mem_revIf.mp hl)))]
 
+/-- **`add_square`** on arbitrary host gates, any width, either endianness: exactly `x²`, on `2n`
+bits (one bit for a one-bit operand) -/
+theorem c08_square {st st' : GSt} {x out : List Label} {be : Bool}
+    (h : (addSquare x be).run st = .ok (out, st')) (hw : WFS st.c)
+    (hx : ∀ l ∈ x, l ∈ st.c.labels) {b v : Label → Bool} (hv : IsValB st.c b v) :
+    ∃ v', IsValB st'.c b v' ∧ (∀ l ∈ st.c.labels, v' l = v l) ∧
+      valLE v' (revIf out be) = valLE v (revIf x be) * valLE v (revIf x be) ∧
+      out.length = (if x.length = 1 then 1 else 2 * x.length) := by
+  obtain ⟨v', h1, h2, h3⟩ := run_total h hw hv
+  obtain ⟨e1, e2⟩ := sem_addSquare h3
+  refine ⟨v', h1, h2, ?_, e2⟩
+  rw [e1, valLE_congr (fun l hl => h2 l (hx l (mem_revIf.mp hl)))]
+
+/-- **`add_square_pow2_m1`**, same statement -/
+theorem c08_square_pow2_m1 {st st' : GSt} {x out : List Label} {be : Bool}
+    (h : (addSquarePow2M1 x be).run st = .ok (out, st')) (hw : WFS st.c)
+    (hx : ∀ l ∈ x, l ∈ st.c.labels) {b v : Label → Bool} (hv : IsValB st.c b v) :
+    ∃ v', IsValB st'.c b v' ∧ (∀ l ∈ st.c.labels, v' l = v l) ∧
+      valLE v' (revIf out be) = valLE v (revIf x be) * valLE v (revIf x be) ∧
+      out.length = (if x.length = 1 then 1 else 2 * x.length) := by
+  obtain ⟨v', h1, h2, h3⟩ := run_total h hw hv
+  obtain ⟨e1, e2⟩ := sem_addSquarePow2M1 h3
+  refine ⟨v', h1, h2, ?_, e2⟩
+  rw [e1, valLE_congr (fun l hl => h2 l (hx l (mem_revIf.mp hl)))]
+
 #print axioms c08_generators_only_add_fresh_gates
 #print axioms c08_partial_products
 #print axioms c08_mul_alter
@@ -140,5 +168,7 @@ theorem c08_mul_pow2_m1 {st st' : GSt} {x y out : List Label} {be : Bool}
 #print axioms c08_mul_karatsuba
 #print axioms c08_mul_karatsuba_pow2
 #print axioms c08_mul_pow2_m1
+#print axioms c08_square
+#print axioms c08_square_pow2_m1
 
 end Cirbo
